@@ -1,3 +1,6 @@
+pub mod c01;
 pub mod c04;
+pub mod c06;
+pub mod c07;
 pub mod c13;
 pub mod httpgen;
